@@ -248,6 +248,27 @@ def hier_job(r, tables):
                 copies=r.choice([1, 1, 2]), times=r.choice([1, 2]), mods=mods)
 
 
+def late_job(r, tables):
+    """elaborate; re-target an instance of the elaborated top at a never-elaborated module holding instance arrays; compile"""
+    pdk = r.choice(["sky130", "gf180", "sample", "asap7"])
+    def prim_inst(n, arr):
+        prim, params = rand_params(r, tables, pdk)
+        if params.get("model") in ("NMOS_ISO_20p0V",):
+            params = dict(params, model="NMOS_20p0V_STD")
+        if "_PREC_" in (params.get("model") or ""):
+            params = {k: v for k, v in params.items() if k != "l"}
+        it = inst(n, prim, params, [r.choice("abcd") for _ in range(4)])
+        if arr:
+            it["arr"] = arr
+        return it
+    leaf = dict(name="M0", insts=[prim_inst("i0", 0)])
+    top = dict(name="M1", insts=[dict(n="s0", t="mod", ref=0, conns=dict(a=r.choice("abcd"), b=r.choice("abcd"))), prim_inst("i1", 0)]
+               + ([dict(n="s1", t="mod", ref=0, conns=dict(a="a", b="c"))] if r.random() < 0.5 else []))
+    late = dict(name="L", insts=[prim_inst("p", r.choice([2, 2, 3])), prim_inst("n", r.choice([0, 0, 2]))])
+    return dict(pdk=pdk, via=r.choice(["direct", "direct", "name", "module", "default"]), top=1, copies=1, times=r.choice([1, 2]),
+                mods=[leaf, top], late=dict(inst="s0", mod=late))
+
+
 def job_size(j):
     return (sum(len(m["insts"]) for m in j["mods"]), j.get("copies", 1), j.get("times", 1), len(json.dumps(j)))
 
@@ -718,6 +739,10 @@ def run(run, tier, seed, replay=None):
                 shared_submodule=sum(1 for j in hj if any(sum(1 for m in j["mods"] for it in m["insts"] if it["t"] == "mod" and it["ref"] == k) >= 2 for k in range(len(j["mods"])))),
                 two_copies=sum(1 for j in hj if j["copies"] == 2), compiled_twice=sum(1 for j in hj if j["times"] == 2),
                 via={v: sum(1 for j in hj if j["via"] == v) for v in ("direct", "name", "module", "default")})
+    lj = [late_job(core.rng(seed, "C15", "late", k), tables) for k in range(24 if quick else 400)]
+    run_designs(run, "retarget", lj, lambda j: True,
+                "elaborate, re-target an instance of the elaborated top at a never-elaborated module with instance arrays, compile; all count",
+                arrays=sum(1 for j in lj for it in j["late"]["mod"]["insts"] if it.get("arr")))
     n_hist = 160 if quick else 2500
     run_histories(run, "histories", hist_corpus() + [hist_job(core.rng(seed, "C15", "hist", k), tables) for k in range(n_hist)])
     run_designs(run, "malformed", malformed_jobs(tables), lambda j: True, "requests no device satisfies / rejected parameter values; all count")
